@@ -40,6 +40,8 @@ def seeds():
         first = m.get('first_validation') or m.get('validation') or {}
         r = recheck.get(name, {})
         now = 'caught' if r.get('detected') else ('MISSED' if r else 'n/a')
+        if m.get('triage') and not r.get('detected'):
+            now = 'silent (not reachable through the real code, see triage in meta.json)'
         if r.get('error'):
             now = r['error']
         fv = r.get('first_violation', '') or ''
